@@ -207,6 +207,29 @@ theorem reduce_col_partial {α} (d : Nat) (f : α → α → α)
   rw [← colTree_eval, ← hl]
   exact (eval_eq_foldSeq f hassoc v _).symm
 
+/-- reduce_col.jdf / reduce_row.jdf: the output declarations of the producers and the input
+    declarations of the consumers describe the same edges -/
+theorem reduce_col_edges_match (d lv i : Nat) :
+    Dst.flowA (lv + 1) i ∈ colOut d lv (2 * i) ∧ Dst.flowB (lv + 1) i ∈ colOut d lv (2 * i + 1) ∧
+    colLeafOut (2 * i) = .flowA 1 i ∧ colLeafOut (2 * i + 1) = .flowB 1 i ∧
+    colTop 1 i = .tile (2 * i) ∧ colBottom 1 i = .tile (2 * i + 1) ∧
+    colTop (lv + 2) i = .node (lv + 1) (2 * i) ∧ colBottom (lv + 2) i = .node (lv + 1) (2 * i + 1) := by
+  have e0 : 0 = 2 * i % 2 := by omega
+  have e1 : 1 = (2 * i + 1) % 2 := by omega
+  have e2 : 2 * i / 2 = i := by omega
+  have e3 : (2 * i + 1) / 2 = i := by omega
+  have e4 : 2 * i % 2 = 0 := by omega
+  have e5 : ¬ ((2 * i + 1) % 2 = 0) := by omega
+  refine ⟨?_, ?_, ?_, ?_, ?_, ?_, ?_, ?_⟩
+  · unfold colOut; rw [if_pos e0, e2]; simp
+  · unfold colOut; rw [if_pos e1, e3]; simp
+  · unfold colLeafOut; rw [if_pos e4, e2]
+  · unfold colLeafOut; rw [if_neg e5, e3]
+  · unfold colTop; rw [if_pos rfl]
+  · unfold colBottom; rw [if_pos rfl]
+  · unfold colTop; rw [if_neg (by omega)]; rfl
+  · unfold colBottom; rw [if_neg (by omega)]; rfl
+
 /-- FINDING: when `mt` is not a power of two the tree of reduce_col.jdf / reduce_row.jdf (depth
     `ceil(log2 mt)`) needs a leaf for row `mt`, which is not a row of the matrix -/
 theorem reduce_col_not_pow2 (mt : Nat) (h : mt ≠ 2 ^ clog2 mt) : mt ∈ colLeaves (clog2 mt) 0 := by
